@@ -127,8 +127,19 @@ func vh_inet() {
 // varint / bigint from big.Int. bound: |v| < 2^152
 func vBig(name string) (*big.Int, int64, bool) {
 	// built from sign and 8 magnitude bytes plus an optional high part, so that both the 64-bit and the wide range occur
-	mag := vBytes(name, vBound("bigbytes"))
-	mag = mag[:vConcrete(len(mag))] // fork on the byte length: the magnitude is then a plain concatenation
+	var mag []byte
+	if vBound("bigwide") == 1 {
+		// the 64-bit band: an 8-byte magnitude with arbitrary top and bottom bytes and all-zero / all-one middle
+		// (2^56 .. 2^64-1 on both sides of zero: around the int64 / uint64 limits)
+		mid := byte(0)
+		if vBool(name + "_mid_ones") {
+			mid = 0xff
+		}
+		mag = []byte{vU8(name + "_top"), mid, mid, mid, mid, mid, mid, vU8(name + "_low")}
+	} else {
+		mag = vBytes(name, vBound("bigbytes"))
+		mag = mag[:vConcrete(len(mag))] // fork on the byte length: the magnitude is then a plain concatenation
+	}
 	neg := vBool(name + "_neg")
 	b := new(big.Int).SetBytes(mag)
 	if neg {
